@@ -214,6 +214,8 @@ def apply(ctx, W):
             })""", ("C01", "C02", "C03"), "build-alignment"),
             ("""res is Ok && res->Ok_0 is Some ==> declared_fields_placed(&old(semantic).type_registry, module_scope(&module_of(old(semantic), *resolvee_path)->0),
                     definition.statements@, res->Ok_0->0.inner->Type_0.regions@, &final(semantic).type_registry)""", ("C01", "C03", "C20"), "build-placement"),
+            ("""res is Ok && res->Ok_0 is Some ==> build_vftable_ok(&old(semantic).type_registry, module_scope(&module_of(old(semantic), *resolvee_path)->0),
+                    definition.statements@, &final(semantic).type_registry, *resolvee_path, res->Ok_0->0.inner->Type_0.vftable, res->Ok_0->0.inner->Type_0.regions@)""", ("C06",), "build-vftable"),
             ("""res is Ok && res->Ok_0 is Some ==> ({
                 let td = res->Ok_0->0.inner->Type_0; let a = definition.attributes.0@; let n = a.len() as int;
                 &&& attr_usize(a, "singleton"@, n, td.singleton)
@@ -224,8 +226,10 @@ def apply(ctx, W):
             })""", ("C15", "C17"), "build-flags"),
         ])
 
-    ghost(ctx, fw, u, stmt_with_loop(l_stmts)["span"][1], "let ghost pend = pending_regions@;")
+    ghost(ctx, fw, u, stmt_with_loop(l_stmts)["span"][1], "let ghost pend = pending_regions@; let ghost own0 = vftable_functions;")
     ghost(ctx, fw, u, st[-1]["span"][0], """proof {
         assert(placement_exists(pend, regions@, &semantic.type_registry));
+        assert(vftable_of_first_base(&semantic.type_registry, *resolvee_path, pend, own0, vftable, regions@));
+        assert(build_vftable_ok(&old(semantic).type_registry, module_scope(&module_of(old(semantic), *resolvee_path)->0), definition.statements@, &semantic.type_registry, *resolvee_path, vftable, regions@));
         assert(declared_fields_placed(&old(semantic).type_registry, module_scope(&module_of(old(semantic), *resolvee_path)->0), definition.statements@, regions@, &semantic.type_registry));
     }""")
